@@ -241,7 +241,11 @@ func plan(thorough bool) []planned {
 		if *flagOnly != "" && !strings.Contains(pr.Name, *flagOnly) {
 			continue
 		}
-		for _, c := range configsFor(pr.P, thorough) {
+		cfgs := stressConfigs()
+		if !pr.Stress {
+			cfgs = configsFor(pr.P, thorough)
+		}
+		for _, c := range cfgs {
 			if *flagCfg != "" && len(c.Dev) > 0 && !strings.Contains(c.ID(), *flagCfg) {
 				continue
 			}
@@ -303,6 +307,9 @@ func minDev(j Job) int {
 func main() {
 	vsys.Quiet()
 	r := ev.Start("C04", "exploration")
+	if r.Thorough() {
+		stressSessions = 4
+	}
 	if *flagChild != "" {
 		childMain(*flagChild, *flagOut)
 		return
